@@ -14,6 +14,12 @@ Stages (after build + audit of coq/Properties/C05.v):
   T4   the vocabulary of the message-level theorems C05_emit / C05_accept (coq/Proofs/C05MsgDef.v, C05AccDef.v) on what is
        generated here: wf_schema / js_matches / keys_ok hold on every generated schema pair, abs_obj = the oracle's abstraction
        abs_bp on every generated object, emit_good / wf_aval hold exactly outside the known classes.
+  T5   the descriptor side of C05_generated_js_matches / _emit / _accept (coq/Model/C05Desc.v): on FileDescriptorSets real protoc
+       emits (the Coq witness sources, C03's systematic / random .proto generator, msggen schemas printed as .proto) the JSON schema
+       jschema_of_descriptor reads off the descriptor = the one read off google.protobuf's OWN descriptor pool for that set
+       (json_name, types, presence, oneofs, enum value names); json_names_ok = the harness's reading with the real naming functions;
+       the theorem instance by instance; the two refutation witnesses (K3 on a descriptor, enum-name prefix stripping) and the
+       non-vacuity example D_ok replayed against the REAL plugin output and json_format.
 Failing inputs are shrunk (fields, container elements, nesting) and labelled by the features of the minimal input.
 """
 import base64
@@ -40,6 +46,7 @@ CLS_WRAP_ACC = "wrapper-accept"
 CLS_OPT_DEFAULT = "optional-default-message-emit"
 CLS_NEGZERO = "neg-zero-implicit-float"
 CLS_PLAIN_ZERO_TIME = "plain-zero-time"
+CLS_ENUM_PREFIX = "enum-value-prefix-stripped"
 
 TRUSTED = [
     "Coq 8.16.1 kernel and vm_compute (no native_compute); full .vo build via coq_makefile",
@@ -51,6 +58,11 @@ TRUSTED = [
     "betterproto messages and reference messages to one abstract message value, field-by-field diff), harness/msggen.py (schemas, values), "
     "the shrinker and the classification of minimal failing inputs by their features",
     "oracles: google.protobuf 7.36 json_format / descriptor pool, grpc_tools.protoc (thorough tier: json_name of real protoc), CPython json / base64",
+    "descriptor side (T5): coq/Model/C05Desc.v jschema_of_descriptor / json_names_ok are DEFINITIONS of how the reference reads a "
+    "descriptor set; they are tied to google.protobuf's own descriptor pool (json_name, types, presence, oneofs, enum value names) and "
+    "to the real naming functions on descriptor sets real protoc emits; the descriptor model (Spec/Descriptor.v, property C03's) has "
+    "no syntax field and no json_name option: proto2 files and explicit [json_name = ...] are outside it (counted, not compared); "
+    "harness/plugin_util.py (real protoc + plugin, ruff shim) for the replay of the generated-class witnesses",
     "float text: JSON numbers are compared as binary64 values (binary32 for `float` fields) after CPython's repr/float(); the calendar "
     "arithmetic of the spec (civil date <-> days) is validated by T3, not proved",
 ]
@@ -592,6 +604,12 @@ def run(ctx):
         run_t4(ctx, schemas, t3_cases)
     for s, _ in schemas:
         s.dispose()
+    # ---------------------------------------------------------------- 5. T5: the descriptor side (generated classes)
+    try:
+        run_t5(ctx)
+    except Exception as e:  # noqa
+        ctx.fail("corr", f"T5 (descriptor side) crashed: {e!r}", no_input=True,
+                 theorem_or_correspondence="T5 Model/C05Desc.v <-> google.protobuf descriptor pool")
 
 
 def run_names(ctx, R, C, names):
@@ -1157,6 +1175,402 @@ def run_t4(ctx, schemas, t3_cases):
                  theorem_or_correspondence="T4 Proofs/C05MsgDef.v / C05AccDef.v <-> harness/c05_reference.py")
 
 
+
+# ==========================================================================================
+# T5: the descriptor side - coq/Model/C05Desc.v jschema_of_descriptor / json_names_ok against google.protobuf's own
+#     descriptor pool on descriptor sets real protoc emits; the witnesses of Proofs/C05DescWit.v against the real plugin
+# ==========================================================================================
+T5_IMPORTS = ("Spec.Descriptor Model.Plugin Proofs.PluginP Proofs.PluginWitP Model.Types Model.Object Model.WellFormed "
+              "Model.C03Bridge Model.C03Chain Proofs.C03BridgeWit Model.C05Desc Proofs.C05MsgDef Proofs.C05DescWit")
+_P3 = 'syntax = "proto3";\n'
+# the .proto sources of the descriptors written out in coq/Proofs/C05DescWit.v
+T5_WITNESS_SOURCES = {
+    "D_k3json": _P3 + "package kj;\nmessage M { int32 HTTPStatus = 1; int32 a1b = 2; }\n",
+    "D_enum_prefix": _P3 + "package ke;\nenum Color { COLOR_UNSPECIFIED = 0; COLOR_RED = 1; }\nmessage M { Color c = 1; }\n",
+}
+SCALARS15 = ["double", "float", "int32", "int64", "uint32", "uint64", "sint32", "sint64", "fixed32", "fixed64", "sfixed32",
+             "sfixed64", "bool", "string", "bytes"]
+
+
+def t5_clean_source():
+    """two files / two packages with every field shape of the runtime model, lower_snake field names inside json_name_safe and
+    enum value names the plugin leaves alone: every premise of C05_generated_js_matches holds (checked inside Coq)"""
+    n = [0]
+
+    def num():
+        n[0] += 1
+        return n[0]
+    L = [_P3, "package vc.one;", 'import "google/protobuf/timestamp.proto";', 'import "google/protobuf/duration.proto";',
+         'import "google/protobuf/wrappers.proto";', 'import "vc_two.proto";',
+         "enum Mode { OFF = 0; ON = 1; NEG = -1; }", "message All {"]
+    L.append("  message Leaf { All up = 1; enum Kind { KZERO = 0; KONE = 1; } Kind kind = 2; message Deep { Kind k = 1; } Deep deep = 3; }")
+    for t in SCALARS15:
+        L.append(f"  {t} p_{t} = {num()};")
+    for t in SCALARS15:
+        L.append(f"  optional {t} o_{t} = {num()};")
+    for t in SCALARS15:
+        L.append(f"  repeated {t} r_{t} = {num()};")
+    L.append("  oneof pick {")
+    for t in SCALARS15:
+        L.append(f"    {t} w_{t} = {num()};")
+    L.append(f"    Mode w_mode = {num()}; Leaf w_leaf = {num()}; google.protobuf.Timestamp w_ts = {num()}; "
+             f"google.protobuf.Duration w_du = {num()};")
+    L.append("  }")
+    L.append(f"  map<string, Leaf> m_leaf = {num()}; map<int32, Mode> m_mode = {num()}; map<bool, google.protobuf.Timestamp> m_ts = {num()};")
+    L.append(f"  map<sint64, bytes> m_bytes = {num()}; map<fixed32, double> m_double = {num()}; map<uint64, google.protobuf.Duration> m_du = {num()};")
+    L.append(f"  Mode mode = {num()}; repeated Mode modes = {num()}; optional Mode o_mode = {num()};")
+    L.append(f"  Leaf leaf = {num()}; repeated Leaf leaves = {num()}; optional Leaf o_leaf = {num()};")
+    L.append(f"  google.protobuf.Timestamp ts = {num()}; google.protobuf.Duration du = {num()}; "
+             f"repeated google.protobuf.Timestamp tss = {num()}; optional google.protobuf.Duration o_du = {num()};")
+    for w in ("Double", "Float", "Int64", "UInt64", "Int32", "UInt32", "Bool", "String", "Bytes"):
+        L.append(f"  google.protobuf.{w}Value v_{w.lower()} = {num()};")
+    L.append(f"  vc.two.Other other = {num()}; vc.two.Other.Tag tag = {num()}; repeated vc.two.Other others = {num()};")
+    L.append(f"  oneof second {{ string s_text = {num()}; Leaf.Deep s_deep = {num()}; vc.two.Other s_other = {num()}; }}")
+    L.append("}")
+    two = [_P3, "package vc.two;", "message Other { enum Tag { TNONE = 0; TSOME = 5; } Tag tag = 1; int64 big = 2; Other next = 3; }"]
+    return {"vc_one.proto": "\n".join(L) + "\n", "vc_two.proto": "\n".join(two) + "\n"}
+
+
+SKIND_TAG = {1: 0, 2: 1, 5: 2, 3: 3, 13: 4, 4: 5, 17: 6, 18: 7, 7: 8, 6: 9, 15: 10, 16: 11, 8: 12, 9: 13, 12: 14}
+WRAPPER_TAG = {"google.protobuf.DoubleValue": 0, "google.protobuf.FloatValue": 1, "google.protobuf.Int32Value": 2,
+               "google.protobuf.Int64Value": 3, "google.protobuf.UInt32Value": 4, "google.protobuf.UInt64Value": 5,
+               "google.protobuf.BoolValue": 12, "google.protobuf.StringValue": 13, "google.protobuf.BytesValue": 14}
+REAL_NAMING = "Casing.safe_snake_case Casing.pascal_case Casing.pythonize_enum_member_name"
+
+
+def t5_generated(fds):
+    """(messages, enums) of the generated packages in class-table order: packages by first appearance (google.protobuf is
+    bundled, not generated), files in request order, declaration preorder; map-entry types are not classes.
+    Entries: (package, path, proto)"""
+    from . import c03 as C03
+    msgs, enums = [], []
+    for p in C03.out_packages(fds):
+        for f in fds.file:
+            if f.package != p:
+                continue
+            items = C03.walk_file(f)
+            enums += [(p, path, obj) for kind, path, obj in items if kind == "enum" and len(path) == 1]
+            enums += [(p, path, obj) for kind, path, obj in items if kind == "enum" and len(path) > 1]
+            msgs += [(p, path, obj) for kind, path, obj in items if kind == "msg" and not obj.options.map_entry]
+    return msgs, enums
+
+
+def full_name(pkg, path):
+    return (pkg + "." if pkg else "") + ".".join(path)
+
+
+def pool_jschema(fds):
+    """cv literal (Model/C05Desc.v cv_jschema) of the JSON schema google.protobuf's own DescriptorPool holds for the descriptor
+    set: json_name, type, message / enum type, presence, containing oneof of every field are read from the POOL's descriptors;
+    the raw protos give only the order of declaration and the proto3_optional flag (a synthetic oneof is not a oneof)."""
+    from google.protobuf import descriptor_pool
+    from google.protobuf.descriptor import FieldDescriptor as FD
+    pool = descriptor_pool.DescriptorPool()
+    for f in fds.file:
+        pool.Add(f)
+    msgs, enums = t5_generated(fds)
+    midx, eidx = {}, {}
+    for i, (p, path, _) in enumerate(msgs):
+        midx.setdefault(full_name(p, path), i)
+    for i, (p, path, _) in enumerate(enums):
+        eidx.setdefault(full_name(p, path), i)
+
+    def kind(fd):
+        if fd.type in SKIND_TAG:
+            return cl([cz(0), cz(SKIND_TAG[fd.type])])
+        if fd.type == FD.TYPE_MESSAGE:
+            fn = fd.message_type.full_name
+            if fn in WRAPPER_TAG:
+                return cl([cz(5), cz(WRAPPER_TAG[fn])])
+            if fn == "google.protobuf.Timestamp":
+                return cl([cz(3)])
+            if fn == "google.protobuf.Duration":
+                return cl([cz(4)])
+            # a message / enum that is not generated (google.protobuf.Any, Struct, NullValue ...: outside bridge_ok) has no
+            # position: jschema_of_descriptor writes index 0 there, and so does this reading
+            return cl([cz(2), cz(midx.get(fn, 0))])
+        if fd.type == FD.TYPE_ENUM:
+            return cl([cz(1), cz(eidx.get(fd.enum_type.full_name, 0))])
+        raise KeyError(fd.type)
+
+    classes = []
+    for p, path, proto in msgs:
+        d = pool.FindMessageTypeByName(full_name(p, path))
+        groups = []
+        for fp in proto.field:
+            fd = d.fields_by_name[fp.name]
+            if fd.containing_oneof is not None and not fp.proto3_optional and fd.containing_oneof.name not in groups:
+                groups.append(fd.containing_oneof.name)
+        fl = []
+        for fp in proto.field:
+            fd = d.fields_by_name[fp.name]
+            is_map = fd.type == FD.TYPE_MESSAGE and fd.message_type.GetOptions().map_entry
+            if is_map:
+                k = fd.message_type.fields_by_name["key"]
+                v = fd.message_type.fields_by_name["value"]
+                kd, card = kind(v), cl([cz(3), cz(SKIND_TAG[k.type])])
+            else:
+                kd = kind(fd)
+                rep = fd.is_repeated if hasattr(fd, "is_repeated") else fd.label == FD.LABEL_REPEATED
+                card = cl([cz(2)]) if rep else cl([cz(1)]) if fd.has_presence else cl([cz(0)])
+            real = fd.containing_oneof is not None and not fp.proto3_optional and not is_map
+            fl.append(cl([cb(fd.name.encode()), cb(fd.json_name.encode()), kd, card,
+                          cz(groups.index(fd.containing_oneof.name)) if real else CN]))
+        classes.append(cl(fl))
+    en = []
+    for p, path, proto in enums:
+        d = pool.FindEnumTypeByName(full_name(p, path))
+        en.append(cl([cl([cb(v.name.encode()), cz(v.number)]) for v in d.values]))
+    return cl([cl(classes), cl(en)])
+
+
+def py_json_names_ok(fds):
+    """independent reading of Model/C05Desc.v json_names_ok with the REAL pythonize_enum_member_name"""
+    from betterproto.compile import naming as N
+    msgs, enums = t5_generated(fds)
+    ok = True
+    for p, path, m in msgs:
+        names = [f.name for f in m.field]
+        jn = [f.json_name for f in m.field]
+        if not all(json_name_safe(n) for n in names) or len(set(jn)) != len(jn):
+            ok = False
+    for p, path, e in enums:
+        vs = [v.name for v in e.value]
+        flat = "".join("_" + x for x in path)
+        if len(set(vs)) != len(vs) or any(v.startswith("__") for v in vs) or any(N.pythonize_enum_member_name(v, flat) != v for v in vs):
+            ok = False
+    return ok
+
+
+def default_json_names(fds):
+    """every json_name in the generated packages is protoc's default (the descriptor model has no json_name option)"""
+    def to_json_name(n):
+        out, cap = [], False
+        for c in n:
+            if c == "_":
+                cap = True
+            else:
+                out.append(c.upper() if cap and "a" <= c <= "z" else c)
+                cap = False
+        return "".join(out)
+    return all(f.json_name == to_json_name(f.name) for _, _, m in t5_generated(fds)[0] for f in m.field)
+
+
+def t5_sources(ctx):
+    """{label: {file name: .proto text}}"""
+    from .. import c03_protogen as G
+    from . import c03 as C03, c01 as C01
+    out = {"D_ok": {"D_ok.proto": G.COQ_WITNESS_SOURCES["D_ok"]}}
+    for nm, text in T5_WITNESS_SOURCES.items():
+        out[nm] = {nm + ".proto": text}
+    out["clean"] = t5_clean_source()
+    for sc in G.systematic(0):
+        out[sc.label] = dict(sc.files)
+    gen = G.Gen(ctx.rng, C03.api_names(), depth=3 if not ctx.thorough else 5)
+    for i in range(10 if not ctx.thorough else 150):
+        sc = gen.schema(100 + i)
+        out[f"random-{i}"] = dict(sc.files)
+    bases = [msggen.matrix_schema()] + [msggen.random_schema(ctx.rng) for _ in range(3 if not ctx.thorough else 30)]
+    for i, b0 in enumerate(bases):
+        try:
+            # as C03's stage F (c): fields in .proto order (members of a oneof contiguous), groups renumbered by first appearance
+            classes = []
+            for c in b0.classes:
+                fs = C01.proto_order(c)
+                order = []
+                for f in fs:
+                    if f.group is not None and f.group not in order:
+                        order.append(f.group)
+                classes.append(msggen.Cls(c.name, [msggen.Field(f.name, f.number, f.card, f.elem, key=f.key,
+                                                                group=None if f.group is None else order.index(f.group))
+                                                   for f in fs], len(order)))
+            sc = msggen.Schema(classes, b0.enums)
+            out[f"msggen-{i}"] = {f"vj{i}/schema.proto": C01.proto_text(sc, f"vj{i}")}
+            sc.dispose()
+        except Exception as e:  # noqa
+            ctx.count("t5_msggen_not_printable:" + type(e).__name__)
+        b0.dispose()
+    return out
+
+
+def run_t5(ctx):
+    from .. import plugin_util as pu
+    from . import c03 as C03
+    sets = {}
+    for label, files in t5_sources(ctx).items():
+        try:
+            sets[label] = pu.descriptor_set(ctx.work, files, name="t5_" + re.sub(r"\W", "_", label))
+        except Exception as e:  # noqa
+            if label in ("D_ok",) or label in T5_WITNESS_SOURCES:
+                ctx.fail("corr", f"protoc rejects the source of Coq witness {label}: {e!r}", no_input=True,
+                         theorem_or_correspondence="witness descriptors of Proofs/C05DescWit.v")
+            else:
+                ctx.count("t5_protoc_rejected")
+    prelude, pairs, meta = [], [], []
+    yes = lib.cbool(True)
+    for k, (label, fds) in enumerate(sets.items()):
+        prelude.append(f"Definition D{k} : descriptor := {C03.g_descriptor(fds)}.")
+        if label == "D_ok" or label in T5_WITNESS_SOURCES:
+            # the Gallina literal in Proofs/*.v is what protoc emits for the quoted source today
+            pairs.append((f"cv_opt_table (class_table_of w_field_name w_class_name w_member_name {label})",
+                          f"cv_opt_table (class_table_of w_field_name w_class_name w_member_name D{k})"))
+            meta.append(("witness descriptor literal = protoc's output (class table)", label))
+            pairs.append((f"cv_jschema (jschema_of_descriptor {label})", f"cv_jschema (jschema_of_descriptor D{k})"))
+            meta.append(("witness descriptor literal = protoc's output (JSON schema)", label))
+        proto3 = all(f.syntax == "proto3" for f in fds.file if f.package != "google.protobuf")
+        if not (proto3 and default_json_names(fds)):
+            # outside the descriptor model's reading: proto2 presence, an explicit [json_name = ...]
+            ctx.count("t5_outside_model:" + ("proto2" if not proto3 else "explicit json_name"))
+            continue
+        try:
+            ctx.count("t5_bridge_ok" if C03.py_bridge(fds)[0] else "t5_bridge_not_ok")
+        except Exception:  # noqa
+            pass
+        try:
+            exp = pool_jschema(fds)
+        except Exception as e:  # noqa
+            ctx.count("t5_pool_unreadable:" + type(e).__name__)
+            continue
+        ctx.count("t5_descriptor_sets")
+        ctx.seen_nontrivial(("t5", exp))
+        pairs.append((f"cv_jschema (jschema_of_descriptor D{k})", exp))
+        meta.append(("jschema_of_descriptor vs google.protobuf's descriptor pool", label))
+        jn = py_json_names_ok(fds)
+        ctx.count("t5_json_names_ok" if jn else "t5_json_names_not_ok")
+        pairs.append((f"cbool (json_names_ok Casing.pythonize_enum_member_name D{k})", lib.cbool(jn)))
+        meta.append(("json_names_ok vs the harness's reading with the real naming functions", label))
+        if label in ("D_ok", "clean"):
+            # non-vacuity: every premise of C05_generated_js_matches holds here
+            pairs.append((f"cbool (protoc_wf D{k} && names_ok {REAL_NAMING} D{k} && bridge_ok D{k} "
+                          f"&& json_names_ok Casing.pythonize_enum_member_name D{k} && gen_keys_ok Json.CAMEL Casing.safe_snake_case D{k})", yes))
+            meta.append(("the premises of C05_generated_js_matches / _emit / _accept hold (non-vacuity)", label))
+        pairs.append((f"cbool (implb (protoc_wf D{k} && names_ok {REAL_NAMING} D{k} && bridge_ok D{k} "
+                      f"&& json_names_ok Casing.pythonize_enum_member_name D{k}) "
+                      f"(match class_table_of {REAL_NAMING} D{k} with "
+                      f"Some t => js_matches NB (schema_of_table t) (jschema_of_descriptor D{k}) | None => false end))", yes))
+        meta.append(("instance of C05_generated_js_matches", label))
+    ctx.cov["evaluations"] += len(pairs)
+    try:
+        bad = lib.coq_compare(ctx, "c05t5", T5_IMPORTS, pairs, chunk=12, prelude="\n".join(prelude))
+    except RuntimeError as e:
+        ctx.fail("corr", "the descriptor-side definitions could not be evaluated inside Coq", no_input=True,
+                 observed=str(e)[-1500:], theorem_or_correspondence="T5 Model/C05Desc.v")
+        bad = []
+    ctx.cov["disagreements_checked"] += len(pairs)
+    ctx.count("t5_cases", len(pairs))
+    for i in bad[:12]:
+        what, label = meta[i]
+        ctx.fail("corr", f"T5: {what}: Coq and the harness disagree", input={"source": label},
+                 expected=pairs[i][1][:3000], model_expression=pairs[i][0][:300],
+                 theorem_or_correspondence="T5 Model/C05Desc.v <-> google.protobuf descriptor pool / real naming functions")
+    t5_replay(ctx, sets)
+
+
+T5_REPLAY = r"""
+import json, sys
+from datetime import datetime, timezone, timedelta
+from google.protobuf import descriptor_pb2, descriptor_pool, message_factory, json_format
+fds = descriptor_pb2.FileDescriptorSet(); fds.ParseFromString(open(DS, "rb").read())
+pool = descriptor_pool.DescriptorPool()
+for f in fds.file: pool.Add(f)
+def ref(name): return message_factory.GetMessageClass(pool.FindMessageTypeByName(name))
+out = {}
+def both(tag, m, ref_json, R):
+    # the intended message is described TWICE, independently: as constructor arguments of the generated class and as the
+    # canonical JSON text the reference reads
+    r = json_format.Parse(json.dumps(ref_json), R())
+    o = {"betterproto_json": m.to_json(), "reference_json": json_format.MessageToJson(r, indent=None)}
+    rb = R(); rb.ParseFromString(bytes(m))
+    o["wire"] = "same" if rb == r else "the two descriptions of the value differ on the wire: " + json_format.MessageToJson(rb, indent=None)[:300]
+    try:
+        back = json_format.Parse(o["betterproto_json"], R())
+        o["emit"] = "same" if back == r else "different message"
+    except Exception as e:
+        o["emit"] = "rejected: " + str(e)[:200]
+    try:
+        m2 = type(m)().from_json(o["reference_json"])
+        r2 = R(); r2.ParseFromString(bytes(m2))
+        o["accept"] = "same" if r2 == r else "different message: " + m2.to_json()[:300]
+    except Exception as e:
+        o["accept"] = "raised " + type(e).__name__ + ": " + str(e)[:200]
+    out[tag] = o
+if WHICH == "D_k3json":
+    from g_t5_D_k3json.kj import M
+    both("k3", M(http_status=7), {"HTTPStatus": 7}, ref("kj.M"))
+elif WHICH == "D_enum_prefix":
+    import g_t5_D_enum_prefix.ke as mod
+    both("enum", mod.M(c=mod.Color(1)), {"c": "COLOR_RED"}, ref("ke.M"))
+elif WHICH == "clean":
+    import g_t5_clean.vc.one as mod
+    import g_t5_clean.vc.two as two
+    R = ref("vc.one.All")
+    leaf = mod.AllLeaf(kind=mod.AllLeafKind(1), deep=mod.AllLeafDeep(k=mod.AllLeafKind(1)))
+    LEAF = {"kind": "KONE", "deep": {"k": "KONE"}}
+    vals = [(mod.All(), {}),
+            (mod.All(p_int64=-5, p_uint64=2**64 - 1, p_bytes=b"\x00\xff", p_string="é", o_int32=0, o_bool=False, r_double=[1.5, float("inf")],
+                     r_sfixed64=[-2**63], w_leaf=leaf, m_leaf={"a": leaf}, m_mode={3: mod.Mode(-1)},
+                     m_ts={True: datetime(2001, 2, 3, 4, 5, 6, 7000, tzinfo=timezone.utc)}, m_bytes={-1: b"ab"}, m_du={7: timedelta(seconds=-3, microseconds=5)},
+                     mode=mod.Mode(1), modes=[mod.Mode(0), mod.Mode(-1)], o_mode=mod.Mode(0), leaf=leaf, leaves=[leaf, mod.AllLeaf()],
+                     ts=datetime(1999, 12, 31, 23, 59, 59, tzinfo=timezone.utc), du=timedelta(days=2, microseconds=1), v_bool=False, v_string="",
+                     v_int64=-(2**63), v_bytes=b"", other=two.Other(tag=two.OtherTag(5), big=2**62, next=two.Other(big=1)),
+                     tag=two.OtherTag(5), s_deep=mod.AllLeafDeep(k=mod.AllLeafKind(1))),
+             {"pInt64": "-5", "pUint64": "18446744073709551615", "pBytes": "AP8=", "pString": "é", "oInt32": 0, "oBool": False,
+              "rDouble": [1.5, "Infinity"], "rSfixed64": ["-9223372036854775808"], "wLeaf": LEAF, "mLeaf": {"a": LEAF}, "mMode": {"3": "NEG"},
+              "mTs": {"true": "2001-02-03T04:05:06.007Z"}, "mBytes": {"-1": "YWI="}, "mDu": {"7": "-2.999995s"}, "mode": "ON",
+              "modes": ["OFF", "NEG"], "oMode": "OFF", "leaf": LEAF, "leaves": [LEAF, {}], "ts": "1999-12-31T23:59:59Z",
+              "du": "172800.000001s", "vBool": False, "vString": "", "vInt64": "-9223372036854775808", "vBytes": "",
+              "other": {"tag": "TSOME", "big": "4611686018427387904", "next": {"big": "1"}}, "tag": "TSOME", "sDeep": {"k": "KONE"}}),
+            (mod.All(w_uint64=0, s_text="", o_leaf=mod.AllLeaf(), o_du=timedelta(0), tss=[datetime(1970, 1, 1, tzinfo=timezone.utc)]),
+             {"wUint64": "0", "sText": "", "oLeaf": {}, "oDu": "0s", "tss": ["1970-01-01T00:00:00Z"]})]
+    for i, (m, j) in enumerate(vals):
+        both("clean%d" % i, m, j, R)
+else:
+    import g_t5_D_ok.p.q as mod
+    inner = mod.OuterInner(k=mod.OuterInnerKind(0))
+    m = mod.Outer(by_name={"k": inner}, c=mod.Color(-1), od=1.5, rs=[mod.OuterInner(), mod.OuterInner()],
+                  ts=datetime(1970, 1, 1, 0, 0, 1, 500000, tzinfo=timezone.utc), bv=True, colors={5: mod.Color(-1)})
+    both("ok", m, {"byName": {"k": {}}, "c": "NEG", "od": 1.5, "rs": [{}, {}], "ts": "1970-01-01T00:00:01.500Z", "bv": True,
+                   "colors": {"5": "NEG"}}, ref("p.q.Outer"))
+print("T5RESULT" + json.dumps(out))
+"""
+
+
+def t5_replay(ctx, sets):
+    """C05_generated_json_names_refuted, C05_generated_enum_prefix_refuted and the non-vacuity instance on the classes the REAL
+    plugin generates, judged by google.protobuf.json_format"""
+    from .. import plugin_util as pu
+    from .. import c03_protogen as G
+    srcs = {nm: {nm + ".proto": text} for nm, text in T5_WITNESS_SOURCES.items()}
+    srcs["D_ok"] = {"D_ok.proto": G.COQ_WITNESS_SOURCES["D_ok"]}
+    srcs["clean"] = t5_clean_source()
+    for nm, files in srcs.items():
+        if nm not in sets:
+            continue
+        try:
+            rc, out, _ = pu.generate(ctx.work, files, "g_t5_" + nm)
+            if rc != 0:
+                raise RuntimeError(out[-500:])
+            ds = os.path.join(ctx.work, "t5_" + nm + ".pb")
+            rc, out = pu.run_in_subprocess(ctx.work, f"DS = {ds!r}\nWHICH = {nm!r}\n" + T5_REPLAY)
+            line = [l for l in out.splitlines() if l.startswith("T5RESULT")]
+            if rc != 0 or not line:
+                raise RuntimeError(out[-800:])
+            res = json.loads(line[0][len("T5RESULT"):])
+        except Exception as e:  # noqa
+            ctx.fail("oracle", f"T5 witness {nm} could not be replayed against the real plugin: {e!r}", cls=None, input={"witness": nm})
+            continue
+        ctx.count("t5_witness_replayed")
+        for tag, o in res.items():
+            cls = {"k3": CLS_CASING, "enum": CLS_ENUM_PREFIX}.get(tag)
+            for direction in ("wire", "emit", "accept"):
+                if o[direction] != "same":
+                    ctx.fail("oracle", f"generated classes of {nm}: {direction}: {o[direction]} "
+                             f"(betterproto {o['betterproto_json']}, reference {o['reference_json']})",
+                             cls=cls, input={"witness": nm, "proto": srcs[nm], "direction": direction, **o})
+                else:
+                    ctx.count(f"t5_generated_{direction}_same")
+
+
 def eval_with_prelude(ctx, prelude, expr):
     path = os.path.join(ctx.work, f"c05eval_{abs(hash(expr)) % 10**9}.v")
     with open(path, "w") as f:
@@ -1193,7 +1607,10 @@ def finish(ctx):
         "Coq specification of the proto3 JSON mapping (json_spec / json_accepts / protoc json_name) tied to google.protobuf.json_format by "
         "evaluation inside Coq (vm_compute) on generated messages; theorems relating betterproto's key casing and the to_dict/from_dict "
         "model of C04 to the specification, at the leaves and at the message level (C05_emit, C05_accept: every message of every matched "
-        "schema), whose hypotheses and abstraction are evaluated on the generated schemas and objects (T4); the property itself evaluated "
+        "schema), whose hypotheses and abstraction are evaluated on the generated schemas and objects (T4); for the classes the plugin "
+        "generates the schema hypothesis js_matches is PROVED from the descriptor (C05_generated_js_matches / _emit / _accept), the "
+        "descriptor-side reading being tied to google.protobuf's descriptor pool on protoc's own output and the witnesses replayed "
+        "on the real plugin's output (T5); the property itself evaluated "
         "on the implementation against the reference in both directions on every generated message",
         ASSUMPTIONS, TRUSTED, RULE,
         extra_cov={"explanation": "theorems are unbounded (all names / all values of the spec); the ties sample schemas and values; "
